@@ -54,6 +54,7 @@ def gen_cases(tier):
             yield ('fmt', v, kind, tier)
     for v in ('M1', 'M2', 1):
         yield ('emptyrow', v)
+    yield ('svgtext',)
     # the same documents by file name (extension in three letter cases) and through the command line tool
     for v in ('M3', 1, 7):
         for kind in ('svg', 'eps', 'pdf', 'tex'):
@@ -368,6 +369,15 @@ def run_case(case, acc):
             for fmt in ('svg', 'eps', 'pdf'):
                 one('M1', fmt, {'dark': nm, 'light': '#010203'}, acc)
                 one('M1', fmt, {'dark': '#fdfcfb', 'light': nm.upper(), 'border': 0}, acc)
+    elif kind == 'svgtext':
+        # every XML-significant character and sequence, alone and combined, in the text options: the document must stay well-formed
+        # (the reader is expat) and the text must parse back
+        atoms = ['<', '>', '&', '"', "'", ']]>', ']]', ']>', '&amp;', '&#38;', '&lt;', '<!--', '-->', '<![CDATA[', '<?x?>', '%20', '\u20ac', '\t', ' a ', 'a]]>b', 'm[r[0]]> 7']
+        texts = list(atoms) + [a + b for a in atoms[:8] for b in atoms[:8] if a != b]
+        for t in texts:
+            for opt in ('title', 'desc'):
+                one('M2', 'svg', {opt: t}, acc)
+            one('M2', 'svg', {'title': t, 'desc': t, 'svgid': 'i', 'encoding': 'iso-8859-1'} if all(ord(c) < 256 for c in t) else {'title': t, 'desc': t}, acc)
     elif kind == 'routes':
         v, fmt = case[1], case[2]
         lvl = T.levels_of(v)[0]
